@@ -349,10 +349,10 @@ def gen_run(run_seed: int, tier: str) -> Dict[str, Any]:
     nS, nB = len(battery.STRUCT), len(battery.BUILD)
 
     shape = r_ops.choices(
-        ["concurrent_first", "late_joiner", "single_history", "burst", "shared_user", "big_payload"],
-        weights=[38, 14, 19, 5, 19, 5],
+        ["concurrent_first", "late_joiner", "single_history", "burst", "shared_user", "big_payload", "churn"],
+        weights=[36, 13, 17, 5, 18, 5, 6],
     )[0]
-    if shape in ("single_history", "burst"):
+    if shape in ("single_history", "burst", "churn"):
         n = 1
     elif shape == "big_payload":
         n = r_ops.choice([2, 2, 3])
@@ -412,7 +412,19 @@ def gen_run(run_seed: int, tier: str) -> Dict[str, Any]:
     for t in range(n):
         ops: List[List[Any]] = []
         nslots = 0
-        if shape == "big_payload":
+        if shape == "churn":
+            # a long-running process: converters (mostly user-supplied) are created, used and dropped
+            # one after another, so addresses / ids of dead converters get recycled many times
+            ops.append(get_op(0, allow_shared=False))
+            ops += use_ops(0, 1)
+            for _ in range(r_ops.randint(8, 40)):
+                ops.append(["DROP", 1])
+                cfg_ = rand_cfg()
+                ops.append(["GET", 1, "user", cfg_] if r_ops.random() < 0.8 else ["GET", 1, "fresh", None])
+                ops += use_ops(1, 1)
+            ops += use_ops(0, 2)
+            nslots = 2
+        elif shape == "big_payload":
             # one thread structures a very large payload while the others handle small (also invalid)
             # messages on their own converters
             ops.append(get_op(0, allow_shared=False))
